@@ -14,3 +14,17 @@ _BT = 'bounded native contract check of real entry points against independent or
 for _p, _ref in [('C03', '6/C03'), ('C04', '6/C04'), ('C05', '6/C05'), ('C06', '6/C06'), ('C07', '6/C07'), ('C08', '6/C08'), ('C09', '6/C09'), ('C10', '6/C10'),
                  ('C11', '6/C11'), ('C12', '6/C12'), ('C13', '6/C13'), ('C15', '6/C15'), ('C16', '6/C16'), ('C17', '6/C17'), ('C18', '6/C18'), ('C20', '6/C20')]:
     CLAIMS[_p] = ('exploration', _B, _BN, _BT, 'DESIGN.md 4, ' + _ref)
+
+# properties decided partly by discharged obligations on helper functions and partly by the bounded stand-in: level 'other'
+_MIX = 'mixed: the obligations named in evidence (coverage.proof) are discharged for all inputs on the functions listed there; the end-to-end statement of the property is decided by the bounded stand-in only (never counted as proved)'
+_MT = 'contract-based deductive verification of the helper functions the property rests on (VCs from the real AST, z3/cvc5), plus bounded native contract check of the entry points against independent oracles'
+CLAIMS['C13'] = ('other', 'proved: _is_pattern_absolute (spydrnet/util/patterns.py) answers True exactly for patterns without wildcard/regex characters (string VCs over the real AST); '
+                 'bounded: every get_* query family compared with a brute-force oracle over seeded netlists and patterns', _MIX + '; ' + _BN, _MT, 'DESIGN.md 0.1, 6/C13')
+CLAIMS['C15'] = ('other', 'proved (abstract execution of the real AST where every statement may raise): EdifParser/VerilogParser/EBLIFParser.parse restore namespace_manager.default on every exit, and no other function stores it (closed-world rule); '
+                 'bounded: termination, clean rejection and well-formed results on token-level corruptions of small files', _MIX + '; ' + _BN, _MT, 'DESIGN.md 0.1, 6/C15')
+CLAIMS['C16'] = ('other', 'decided on the real AST (syntactic effect analysis, S obligations): every store, delete and mutating call in the five composer modules targets the composer, a container it created, or a documented EDIF effect; '
+                 'bounded: compose twice, compare netlist snapshots and output bytes', _MIX + '; ' + _BN, _MT, 'DESIGN.md 0.1, 6/C16')
+CLAIMS['C17'] = ('other', 'proved (string VCs over the real AST of composers/edif/edifify.py): _length_fix/_characters_good/_characters_fix/_conflicts_fix/make_valid return a legal EDIF identifier of bounded length for every printable-ASCII name, distinct from siblings relative to the uninterpreted sibling scan _conflicts_good; '
+                 'bounded: composed EDIF files re-read and compared, rename table checked against the oracle', _MIX + '; ' + _BN, _MT, 'DESIGN.md 0.1, 6/C17')
+CLAIMS['C20'] = ('other', 'proved: soundness of rejection for the six element-level Comparer functions (normal return implies the examined attributes are equal), for all heaps satisfying Inv; '
+                 'bounded: clones accepted, single structural edits rejected, over seeded netlists', _MIX + '; ' + _BN, _MT, 'DESIGN.md 0.1, 6/C20')
